@@ -171,7 +171,7 @@ def _network(n, n_agents, cfg=None):
         cut = n.get('cut', 15)
         names = ([n['diseases']] if isinstance(n['diseases'], str) else [list(n['diseases'])]) if n.get('diseases') else ([d.get('name', d['type']) for d in (cfg or {}).get('diseases', [])] or ['sir'])
         mk = lambda: {'young': ss.AgeGroup(0, cut), 'old': ss.AgeGroup(cut, None)}
-        return ss.MixingPools(diseases=names[0], beta=n.get('beta', 0.2), src=mk(), dst=mk(), contacts=n.get('contacts', [[2.4, 0.5], [0.9, 0.2]]))
+        return ss.MixingPools(diseases=names[0], beta=n.get('beta', 0.2), src=mk(), dst=mk(), contacts=n.get('contacts', [[2.4, 0.5], [0.9, 0.2]]), **_own_time(n))
     raise ValueError(t)
 
 
